@@ -29,6 +29,9 @@ package main
 //             meta trees; one rich tree (all kinds, odd names, meta) under all
 //             54 configurations  (version {1,2} x compression {off,auto,max} x
 //             pack size {4,16,128} MiB x read concurrency {1,2,8}).
+//   both:     one tree with multi-MiB compressible files (9 MiB constant byte, 6
+//             MiB period 251: chunk plaintext above the 4 MiB pack size, ciphertext
+//             tiny) x version x compression x pack size {4,16} MiB.
 //   thorough: every single-entry tree kind x name; every ordered pair of kinds
 //             in one directory; every kind nested two deep; meta; 6
 //             representative trees x 54 configurations.
@@ -525,7 +528,7 @@ func verifC01MetaCases(thorough bool, probe func(sec int64) bool, trusted bool) 
 	return cs
 }
 
-func verifC01Trees(thorough bool, kinds []string, metas []verifC01MetaCase) (trees []verifC01Tree, rich []verifC01Tree) {
+func verifC01Trees(thorough bool, kinds []string, metas []verifC01MetaCase) (trees []verifC01Tree, rich []verifC01Tree, big []verifC01Tree) {
 	plain := func(kind, name string) bool {
 		return (kind == "empty" || kind == "byte1") && name == "a"
 	}
@@ -645,6 +648,21 @@ func verifC01Trees(thorough bool, kinds []string, metas []verifC01MetaCase) (tre
 		}
 	}}
 	rich = append(rich, richAll)
+	big = append(big, verifC01Tree{ID: "big|compressible", NT: true, Build: func(b *verifC01Builder) {
+		// chunks whose plaintext exceeds the smallest pack size while their compressed form is tiny:
+		// a constant non-zero byte (no chunk boundary before the 8 MiB maximum) and a short period
+		c := make([]byte, 9<<20)
+		for i := range c {
+			c[i] = 'A'
+		}
+		b.file("const9m", c)
+		p := make([]byte, 6<<20)
+		for i := range p {
+			p[i] = byte(i % 251)
+		}
+		b.file("period6m\xff", p)
+		b.kind(".", "byte1", "small")
+	}})
 	if thorough {
 		rich = append(rich,
 			verifC01Tree{ID: "rich|data", NT: true, Build: func(b *verifC01Builder) {
@@ -681,7 +699,7 @@ func verifC01Trees(thorough bool, kinds []string, metas []verifC01MetaCase) (tre
 			}},
 		)
 	}
-	return trees, rich
+	return trees, rich, big
 }
 
 // verifC01Pair runs one backup/restore pair and reports differences.
@@ -840,7 +858,7 @@ func TestVerif_C01(t *testing.T) {
 		return true
 	}
 	metas := verifC01MetaCases(r.Thorough(), probe, trusted)
-	trees, rich := verifC01Trees(r.Thorough(), kinds, metas)
+	trees, rich, big := verifC01Trees(r.Thorough(), kinds, metas)
 	_ = os.RemoveAll(probeDir)
 
 	seq := 0
@@ -858,6 +876,23 @@ func TestVerif_C01(t *testing.T) {
 	}
 	for _, tr := range rich {
 		for _, cfg := range verifC01Configs() {
+			ck := tr.ID + "|" + cfg.String()
+			if !r.Case(ck) {
+				continue
+			}
+			if r.Expired() {
+				return
+			}
+			seq++
+			verifC01Pair(t, r, base, ck, tr, cfg, seq)
+		}
+	}
+	for _, tr := range big {
+		for _, cfg := range verifC01Configs() {
+			// multi-MiB trees: pack sizes 4 and 16 MiB, one read concurrency
+			if cfg.ReadConc != 2 || cfg.PackMiB == 128 {
+				continue
+			}
 			ck := tr.ID + "|" + cfg.String()
 			if !r.Case(ck) {
 				continue
